@@ -21,6 +21,14 @@ from .common import Report
 
 
 def one_step(c: Dict[str, Any]) -> Dict[str, Any]:
+    """One real optimizer step; a library exception on these valid inputs is an observation ({"err": ...}), not a harness failure."""
+    try:
+        return _one_step(c)
+    except Exception as ex:
+        return {"err": f"{type(ex).__name__}: {str(ex)[:160]}"}
+
+
+def _one_step(c: Dict[str, Any]) -> Dict[str, Any]:
     import unit_scaling as uu
     from unit_scaling import optim as O
 
@@ -60,6 +68,8 @@ def one_step(c: Dict[str, Any]) -> Dict[str, Any]:
             uu.DepthModuleList(m for m in mods)
     sign = lambda shape: (torch.randint(0, 2, shape, generator=g).to(torch.float64) * 2 - 1)
     x = sign((1, fi * c.get("groups", 1), k)) if kind == "conv1d" else sign((1, fi))
+    if c.get("unbatched", (fi + fo + k) % 3 == 0):
+        x = x[0]        # one UNBATCHED example, (channels, length) / (features,): torch.nn and the unit-scaled layers accept it; dim 1 is then the length
     # how the layer reaches the optimizer: alone, or in explicit groups together with other (wider / deeper) layers --
     # its update must not depend on the company it keeps
     form = c.get("form", "plain")
@@ -117,6 +127,10 @@ def gen_cases(rng: random.Random, n: int) -> List[Dict[str, Any]]:
 def judge(rep: Report, c: Dict[str, Any], e: Dict[str, Any], obs: Dict[str, Any]) -> None:
     f2 = Fraction(e["f2"][0], e["f2"][1])
     want = c["eta"] * math.sqrt(float(f2))
+    if obs.get("err"):
+        rep.violation(f"building the layer / one optimizer step raised {obs['err']} for {c['layer']} fan_in={c['fanIn']} fan_out={c['fanOut']} k={c['k']} groups={c.get('groups', 1)} depth={c['depth']} {c['opt']}",
+                      {"case": c, "err": obs["err"]}, key=f"raised:{c['layer']}")
+        return
     worst = max(abs(a - want) / want for a in obs["abs"])
     label = f"[{c.get('form', 'plain')}{', allow_non_unit_scaling_params' if c.get('allow') else ''}, depth via {c.get('container', 'seq_args')}] {c['layer']} fan_in={c['fanIn']} fan_out={c['fanOut']} k={c['k']} groups={c.get('groups', 1)} depth={c['depth']} eta={c['eta']:.4g} {c['opt']} constraint={c['constraint']}"
     if worst > 1e-9 or not obs["sign_ok"]:
